@@ -2,6 +2,8 @@
 from p_tokens import C16
 from p_router import C17
 from p_response import C05, C06
+from p_headers import C15
+from p_parse import C02, C03, C14
 from p_conn import C01, C04, C11, C12, C13
 
 REGISTRY = {
@@ -10,6 +12,10 @@ REGISTRY = {
     'C05': C05,
     'C06': C06,
     'C01': C01,
+    'C02': C02,
+    'C03': C03,
+    'C14': C14,
+    'C15': C15,
     'C04': C04,
     'C11': C11,
     'C12': C12,
